@@ -87,6 +87,18 @@ UNITS.update({
         "complete": "all 65536 inputs",
         "trusted": ["Kani 0.68 / CBMC 6.11"],
     },
+    "U-H2P": {
+        "backend": "verus",
+        "template": "contracts/h2p.vc",
+        "trusted": ["Verus 0.2026.09.13 / Z3; vstd",
+                    "UNCHECKED: sha3::Shake256 computes SHAKE-256; modelled as an abstract byte stream shake(input, i) read two bytes at a time",
+                    "Felt::new contract (discharged by Kani harness felt_new_contract in U-FELT)",
+                    "termination of the rejection loop is not proved (D5: probabilistic)"],
+        "assumption_lines": [r"external_body", r"exec_allows_no_decreases_clause"],
+        "dropped": ["D5: no decreases clause on the rejection-sampling loop"],
+        "complete": "unbounded: every input string, every n",
+        "timeout": 600,
+    },
     "U-CODEC": {
         "backend": "verus",
         "template": "contracts/codec.vc",
@@ -127,6 +139,21 @@ PROPS.update({
         "level_text": "Unbounded deductive proof (Verus) on the text of encoding.rs::decompress/compress extracted on every run: decompress returns exactly what Algorithm 18 (written as a recursive specification, with the property's magnitude bound) returns, for every byte string and every n >= 1, including totality (no index out of bounds, no overflow); compress_coefficient is proved over all i16 by Kani.",
         "level_note": "Assumed: the BitVec model (from_bytes/len/index/get) and div_mod_floor contract; vstd; usize = 64 bit. Generic iterator chains are rewritten to loops by catalogued rules only.",
         "technique": "Verus contracts on mechanically extracted real functions + Kani full-domain contract harness",
+    },
+})
+
+PROPS.update({
+    "C14": {
+        "title": "HashToPoint equals the specified SHAKE-256 rejection sampler",
+        "level": "proof",
+        "quick": ["U-H2P", "U-FELT"],
+        "thorough": [],
+        "undecided_clauses": ["that the sha3 crate computes SHAKE-256 (external dependency; assumed)",
+                              "termination of the rejection loop (probability-one, not a deductive obligation)"],
+        "assumptions": [],
+        "level_text": "Unbounded Verus proof on the extracted text of polynomial.rs::hash_to_point: the returned coefficients are exactly Algorithm 3 applied to the SHAKE-256 output stream of the string (big-endian 16-bit words, reject >= 61445, reduce mod q, first n accepted), each in [0,q); determinism and the 512-prefix-of-1024 clause are theorems over the specification function. Felt::new's contract is discharged by Kani on the real code.",
+        "level_note": "Assumed and unchecked: the sha3 crate implements SHAKE-256 (modelled as an uninterpreted byte stream). Partial correctness only (the rejection loop's termination is probabilistic).",
+        "technique": "Verus contract on mechanically extracted real function + Kani contract harness for Felt::new",
     },
 })
 
